@@ -224,21 +224,6 @@ static int numNibbles(int value) {
   return n;
 }
 
-/// Return the length of an instruction that has a relative label reference.
-/// The length of the encoding depends on the distance to the label, which in
-/// turn depends on the length of the instruction. Calculate the value by
-/// increasing the length until they match. Note that for positive references,
-/// the length of the encoding reduces the range that must be represented, and
-/// for negative references the encoding length adds to the range that must be
-/// represented.
-static int instrLen(int labelOffset, int byteOffset) {
-  int length = 1;
-  while (length < numNibbles(labelOffset - byteOffset - length)) {
-    length++;
-  }
-  return length;
-}
-
 //===---------------------------------------------------------------------===//
 // Directive data types.
 //===---------------------------------------------------------------------===//
@@ -350,18 +335,27 @@ public:
 class InstrLabel : public Directive {
   std::string label;
   int labelValue;
+  size_t size;
   bool relative;
 public:
   InstrLabel(Token token, std::string label, bool relative) :
-      Directive(token), label(label), relative(relative) {}
+      Directive(token), label(label), labelValue(0), size(1), relative(relative) {}
   InstrLabel(Location location, Token token, std::string label, bool relative) :
-      Directive(location, token), label(label), relative(relative) {}
-  void setLabelValue(int newValue) { labelValue = newValue; }
+      Directive(location, token), label(label), labelValue(0), size(1), relative(relative) {}
+  /// Set the operand value and the length of the encoding. The length only
+  /// ever grows, so that the layout iteration terminates. Return true if the
+  /// length changed.
+  bool setLabelValue(int newValue, size_t newSize) {
+    labelValue = newValue;
+    if (newSize > size) {
+      size = newSize;
+      return true;
+    }
+    return false;
+  }
   bool operandIsLabel() const { return true; }
   bool isRelative() const { return relative; }
-  size_t getSize() const {
-    return (labelValue < 0 && numNibbles(labelValue) == 1) ? 2 : numNibbles(labelValue);
-  }
+  size_t getSize() const { return size; }
   int getValue() const { return labelValue; }
   std::string getLabel() const { return label; }
   std::string toString() const {
@@ -729,55 +723,71 @@ class CodeGen {
     }
   }
 
-  /// Iteratively update label values until the program size does not change.
-  /// Return the final size of the program.
+  /// Return the number of bytes needed to encode an operand value.
+  static size_t operandSize(int value) {
+    return (value < 0 && numNibbles(value) == 1) ? 2 : numNibbles(value);
+  }
+
+  /// Iteratively lay out the program and update label operands until no
+  /// instruction has to grow. Every label reference starts with a one-byte
+  /// encoding and is only ever extended, so the iteration terminates with the
+  /// smallest consistent layout.
   void resolveLabels() {
-    int lastSize = -1;
-    int byteOffset = 0;
-    //int count = 0;
-    while (lastSize != byteOffset) {
-      //std::cout << "Resolving labels iteration " << count++ << "\n";
-      lastSize = byteOffset;
-      byteOffset = 0;
-      for (auto &directive : program) {
+    bool changed = true;
+    while (changed) {
+      changed = false;
+      // Assign byte offsets and label values using the current sizes.
+      int byteOffset = 0;
+      for (size_t i = 0; i < program.size(); i++) {
+        auto &directive = program[i];
+        bool isLabel = directive->getToken() == Token::IDENTIFIER ||
+                       directive->getToken() == Token::FUNC ||
+                       directive->getToken() == Token::PROC;
+        // Data must be on 4-byte boundaries.
         if (directive->getToken() == Token::DATA) {
-          // Data must be on 4-byte boundaries.
           if (byteOffset & 0x3) {
             byteOffset += 4 - (byteOffset & 0x3);
           }
         }
-        // Update the label value.
-        if (directive->getToken() == Token::IDENTIFIER ||
-            directive->getToken() == Token::FUNC ||
-            directive->getToken() == Token::PROC) {
+        if (isLabel) {
           dynamic_cast<Label*>(directive.get())->setLabelValue(byteOffset);
-        }
-        // Update the label operand value of an instruction, accounting for
-        // relative and absolute references.
-        if (directive->operandIsLabel()) {
-          auto instrLabel = dynamic_cast<InstrLabel*>(directive.get());
-          if (labelMap.count(instrLabel->getLabel()) == 0) {
-            throw UnknownLabelError(directive->getLocation(), instrLabel->getLabel());
-          }
-          int labelValue = labelMap[instrLabel->getLabel()]->getValue();
-          if (instrLabel->isRelative()) {
-            int offset = labelValue - byteOffset;
-            //std::cout << "label value " << labelValue
-            //          << " byteOffset " << byteOffset
-            //          << " offset " << offset
-            //          << " instrlen " << instrLen(labelValue, byteOffset) << "\n";
-            if (offset >= 0) {
-              instrLabel->setLabelValue(offset - instrLen(labelValue, byteOffset));
-            } else {
-              instrLabel->setLabelValue(offset - instrLen(labelValue, byteOffset));
-            }
-          } else {
-            assert((labelValue & 0x3) == 0 && "absolute label value is not word aligned");
-            instrLabel->setLabelValue(labelValue >> 2);
-          }
         }
         directive->setByteOffset(byteOffset);
         byteOffset += directive->getSize();
+      }
+      // Update the label operand values of instructions, accounting for
+      // relative and absolute references, and extend encodings that are too
+      // short for their operand.
+      for (auto &directive : program) {
+        if (!directive->operandIsLabel()) {
+          continue;
+        }
+        auto instrLabel = dynamic_cast<InstrLabel*>(directive.get());
+        if (labelMap.count(instrLabel->getLabel()) == 0) {
+          throw UnknownLabelError(directive->getLocation(), instrLabel->getLabel());
+        }
+        int labelValue = labelMap[instrLabel->getLabel()]->getValue();
+        size_t size = instrLabel->getSize();
+        int value;
+        if (instrLabel->isRelative()) {
+          // The operand is relative to the end of the instruction, so it
+          // depends on the length of the encoding.
+          int offset = labelValue - static_cast<int>(directive->getByteOffset());
+          value = offset - static_cast<int>(size);
+          while (size < operandSize(value)) {
+            size++;
+            value = offset - static_cast<int>(size);
+          }
+        } else {
+          assert((labelValue & 0x3) == 0 && "absolute label value is not word aligned");
+          value = labelValue >> 2;
+          if (size < operandSize(value)) {
+            size = operandSize(value);
+          }
+        }
+        if (instrLabel->setLabelValue(value, size)) {
+          changed = true;
+        }
       }
     }
   }
